@@ -125,8 +125,93 @@ import (
 	"github.com/getkin/kin-openapi/openapi3"
 
 	"github.com/vkd/goag/generator"
+	"github.com/vkd/goag/specification"
 	"github.com/vkd/goag/vrt"
 )
+
+// verifC12Rich: one document that uses every map-typed construct with several
+// entries: alternative security requirements with different carriers, several
+// media types (one of them twice, with and without a parameter), several
+// responses and response headers, component tables, a discriminator mapping.
+func verifC12Rich() *openapi3.Swagger {
+	str := func() *openapi3.SchemaRef { return &openapi3.SchemaRef{Value: &openapi3.Schema{Type: "string"}} }
+	integer := func() *openapi3.SchemaRef { return &openapi3.SchemaRef{Value: &openapi3.Schema{Type: "integer"}} }
+	obj := func(props map[string]*openapi3.SchemaRef, req ...string) *openapi3.Schema {
+		return &openapi3.Schema{Type: "object", Properties: props, Required: req}
+	}
+	pet := obj(map[string]*openapi3.SchemaRef{"id": integer(), "name": str(), "tag": str()}, "id", "name")
+	petRef := func() *openapi3.SchemaRef { return &openapi3.SchemaRef{Ref: "#/components/schemas/Pet", Value: pet} }
+	errS := obj(map[string]*openapi3.SchemaRef{"detail": str(), "code": integer()}, "detail")
+	errRef := func() *openapi3.SchemaRef { return &openapi3.SchemaRef{Ref: "#/components/schemas/Error", Value: errS} }
+	hdr := func(s *openapi3.SchemaRef) *openapi3.HeaderRef {
+		return &openapi3.HeaderRef{Value: &openapi3.Header{Schema: s}}
+	}
+	desc := "d"
+	sec := openapi3.SecurityRequirements{{"bearerAuth": []string{}}, {"apiKey": []string{}}, {"sessionToken": []string{}}}
+	op := &openapi3.Operation{
+		Security: &sec,
+		Parameters: openapi3.Parameters{
+			&openapi3.ParameterRef{Value: &openapi3.Parameter{Name: "q", In: "query", Schema: str()}},
+			&openapi3.ParameterRef{Value: &openapi3.Parameter{Name: "X-Trace", In: "header", Schema: integer()}},
+		},
+		RequestBody: &openapi3.RequestBodyRef{Value: &openapi3.RequestBody{Required: true, Content: openapi3.Content{
+			"application/json":                {Schema: petRef()},
+			"application/json; charset=utf-8": {Schema: errRef()},
+			"application/octet-stream":        {Schema: &openapi3.SchemaRef{Value: &openapi3.Schema{Type: "string", Format: "binary"}}},
+		}}},
+		Responses: openapi3.Responses{
+			"200": &openapi3.ResponseRef{Value: &openapi3.Response{Description: &desc,
+				Headers: openapi3.Headers{"X-A": hdr(str()), "X-B": hdr(integer()), "X-C": hdr(str())},
+				Content: openapi3.Content{"application/json": {Schema: petRef()}}}},
+			"404":     &openapi3.ResponseRef{Value: &openapi3.Response{Description: &desc, Content: openapi3.Content{"application/json": {Schema: errRef()}}}},
+			"default": &openapi3.ResponseRef{Value: &openapi3.Response{Description: &desc}},
+		},
+	}
+	op2 := &openapi3.Operation{Responses: openapi3.Responses{"200": &openapi3.ResponseRef{Value: &openapi3.Response{Description: &desc}}}}
+	return &openapi3.Swagger{
+		OpenAPI: "3.0.3",
+		Info:    &openapi3.Info{Title: "t", Version: "1"},
+		Paths: openapi3.Paths{
+			"/pets":      &openapi3.PathItem{Post: op, Get: op2},
+			"/pets/{id}": &openapi3.PathItem{Get: op2, Parameters: openapi3.Parameters{&openapi3.ParameterRef{Value: &openapi3.Parameter{Name: "id", In: "path", Required: true, Schema: str()}}}},
+			"/shops":     &openapi3.PathItem{Get: op2},
+		},
+		Components: openapi3.Components{
+			Schemas: map[string]*openapi3.SchemaRef{"Pet": {Value: pet}, "Error": {Value: errS}, "Tag": str()},
+			SecuritySchemes: map[string]*openapi3.SecuritySchemeRef{
+				"bearerAuth":   {Value: &openapi3.SecurityScheme{Type: "http", Scheme: "bearer"}},
+				"apiKey":       {Value: &openapi3.SecurityScheme{Type: "apiKey", In: "header", Name: "X-API-Key"}},
+				"sessionToken": {Value: &openapi3.SecurityScheme{Type: "apiKey", In: "header", Name: "X-Session"}},
+			},
+		},
+	}
+}
+
+// VerifC12xPipeline: the real ParseSwagger + NewGenerator (no stubs) on the rich
+// document; in the second run exactly one map range - whichever - iterates in
+// an arbitrary order. The generator model handed to the templates must be the same.
+func VerifC12xPipeline() {
+	cfg := generator.Config{}
+	cfg.Cors.Enable = vrt.Bool("cors_enabled")
+	build := func() (*generator.Generator, error) {
+		s, err := specification.ParseSwagger(verifC12Rich(), specification.SchemaOptions{})
+		if err != nil {
+			return nil, err
+		}
+		return generator.NewGenerator(s, cfg, generator.PackageName("test"), generator.BasePath(""), generator.SpecFilename("openapi.yaml"))
+	}
+	g1, e1 := build()
+	for k := 0; k < vrt.Repeat(40); k++ {
+		vrt.PermuteOneMap(true)
+		g2, e2 := build()
+		vrt.PermuteOneMap(false)
+		vrt.Assert((e1 == nil) == (e2 == nil), "whether the spec / generator model can be built depends on map iteration order")
+		if e1 == nil && e2 == nil {
+			vrt.Reach("compared")
+			vrt.Assert(vrt.EqualData(g1, g2), "the generator model handed to the templates depends on the iteration order of a map")
+		}
+	}
+}
 
 // VerifC12ServerVariables: the base path derived from servers[0] with several
 // variables (one default mentions another variable) under every iteration order.
@@ -184,7 +269,11 @@ func init() {
 			b := repoRunSpec(c, ".", "VerifC12")
 			b.Stubs = []string{"genfs"}
 			b.MapRangeCoverage = true
-			return []RunSpec{a, b}, nil
+			b.Prefix = "VerifC12Server"
+			pipe := repoRunSpec(c, ".", "VerifC12xPipeline")
+			pipe.TargetPrefixes = append(pipe.TargetPrefixes, "github.com/getkin/kin-openapi/openapi3")
+			pipe.MapRangeCoverage = true
+			return []RunSpec{a, b, pipe}, nil
 		},
 	})
 }
